@@ -12,6 +12,9 @@
 //     of the alphabet and subst is single-pass substitution ($X / ${X} replaced by the value; a value
 //     that itself contains $Y is not expanded again) => the number of arguments never depends on a value;
 //   - a non-zero exit status s leads to OnExit(err) with err naming s.
+//
+// Part C (interleave.go): several clients' hooks on ONE real core path, all start/stop orders; every
+// command must see the values of the client it was launched for.
 package main
 
 import (
@@ -700,6 +703,8 @@ func main() {
 	} else {
 		r.Set("hook_command", "harness binary in helper mode")
 	}
+	// part C's path configuration goes through the real conf.Load, which reads MTX_* variables: load it first
+	cLoadConf()
 	// the server's own environment collides with the hook variables: the hook values must win
 	os.Setenv("MTX_PATH", "value-of-the-server-process")
 	os.Setenv("G1", "outer g1")
@@ -784,10 +789,39 @@ func main() {
 		"Each case spawns the hook command (a stand-alone helper compiled from the harness's own helper source, else the harness binary in helper mode) through the real externalcmd.Cmd. "+
 		"distinct = (part, template or hook, value class, exit status, restart)",
 		len(templates), len(values), len(ws), mainSR, len(sweep), len(hv), hst, hrs)
+	cs, ruleC := cScenarios(r.Thorough())
+	r.Rule += "; " + ruleC
 
-	// process spawning is bounded and runs in parallel
+	// process spawning is bounded and runs in parallel. The histories of part C are sequences of steps that
+	// each wait for one short command: they run beside parts A and B (separate path managers, separate files).
+	tC := time.Now()
+	var wallC time.Duration
+	doneC := make(chan struct{})
+	go func() {
+		defer close(doneC)
+		var next atomic.Int64
+		var wg sync.WaitGroup
+		for k := 0; k < min(len(cs), 24); k++ {
+			wg.Add(1)
+			go func() {
+				defer wg.Done()
+				for i := int(next.Add(1)) - 1; i < len(cs); i = int(next.Add(1)) - 1 {
+					runC(cs[i])
+				}
+			}()
+		}
+		wg.Wait()
+		wallC = time.Since(tC)
+	}()
 	vcommon.Parallel(len(as), func(i int) { runA(as[i]) })
 	vcommon.Parallel(len(bs), func(i int) { runB(bs[i]) })
+	tAB := time.Since(tC)
+	<-doneC
+	r.Set("interleaved_histories_on_one_real_path", cHistories.Load())
+	r.Set("interleaved_commands_judged", cCommands.Load())
+	r.Set("interleaved_deferred_commands_run_after_another_clients_hook_started", cDeferredAfterOth.Load())
+	r.Set("interleaved_part_wall_ms_overlapped_with_parts_A_B", wallC.Milliseconds())
+	r.Set("parts_A_B_wall_ms", tAB.Milliseconds())
 
 	os.RemoveAll(tmpDir)
 	r.Set("cmd_cases_templates_x_values", nMain)
@@ -802,7 +836,8 @@ func main() {
 		"MTX_QUERY may reach the command verbatim or url-encoded (documented as url-encoded); both are lossless and accepted",
 		"'reported' = the OnExit callback of externalcmd.Cmd (part A) / the 'command exited' log line of the hooks that register OnExit (part B); stop-side hooks (runOnUnread, runOnDisconnect, ...) register no OnExit and are only checked for argv/env",
 		"termination by signal is not an exit status and is not enumerated; the restart pause (5 s) is not waited for: the command is closed after its first exit",
-		"segment hooks (runOnRecordSegmentCreate/Complete) are closures in core/path.go; their variables are covered in part A by name only",
+		"segment hooks (runOnRecordSegmentCreate/Complete) are closures in core/path.go: part C invokes the closures that the real path installed in its recorder (no media is recorded, the recorder itself is not the caller); MTX_SEGMENT_DURATION is accepted in any decimal notation of the duration in seconds",
+		"part C: readers are fake sessions that do what the protocol servers do around a reader (pathManager.AddReader, hooks.OnRead with the returned path's SafeConf()/ExternalCmdEnv(), the returned closer, path.RemoveReader); the path-level hooks are fired by the real path. Steps of a history are sequential (pool barrier after each step): concurrent use of one environment is not explored here; restart=false for every hook of part C; a variable of another hook family that merely appears in addition in a command's environment is not judged",
 	}
 	r.Finish()
 }
